@@ -12,7 +12,7 @@ META = dict(
                "with the node/edge sign convention, and establishes the invariant), C11_duplicate_index_err (error, state unchanged), C11_remove_index, "
                "C11_index_search_exact (an AIndex search for K,V returns, as a multiset, exactly the existing elements whose value of K equals V), "
                "C11_index_listing_exact (SelectIndexes reports per key the number of existing elements having it). "
-               "HISTORY LEVEL (PARTIAL, conditional): C11_transaction_partial and C11_history_partial show that the joint invariant Inv (graph well-formed [C08] + alias map one-to-one on existing nodes + no duplicate keys + exact indexes) is kept by every mutating query whatever its outcome, at every state inside a running transaction, and after every history from the empty database in which no query fails; they assume `traversal_live rv_fixed` (breadth/depth-first and path searches return only existing elements; index searches and element scans are discharged) and do not cover the state after the rollback of a failing query (needs C13). "
+               "HISTORY LEVEL (UNCONDITIONAL): C11_transaction, C11_history and C11_inv_exact (idx_inv, the exact multiset answer of every index search and the exact listing in every state satisfying Inv) show that the joint invariant Inv (graph well-formed [C08] + alias map one-to-one on existing nodes + no duplicate keys + exact indexes) is kept by every mutating query whatever its outcome, at every state inside a running transaction, and after every history from the empty database in which no query fails, for the revision of /repo and histories whose insert lists have distinct keys (query_ok, C09's quantifier). The former hypothesis `traversal_live rv_fixed` is DISCHARGED: theories/TraversalLiveProofs.v proves from the C14 / C17 / C18 developments, under the graph invariant wf, that breadth/depth-first searches (any conditions, any limit/offset) and path searches from existing origins return only existing elements, hence every id returned by any search exists (C10_traversal_live); the old hypothesis was false as literally stated (its path clause did not ask for an existing origin: C10_traversal_live_refuted), so the old *_partial theorems were vacuous and are kept for the record only. States after the ROLLBACK of failing queries / transactions are covered by C13_history_atomic / C13_history_invariant (coq/Props/C13.v): Inv holds at every point of every history of queries and transactions, failing or not (same query_ok quantifier, capacity <= 2^63). "
                               "The model is tied to /repo on every run by executing generated index histories (indexed / non-indexed keys, replacements, cascaded edge removal, index create/remove at "
                "arbitrary points, failing transactions) on the real database and on the extracted model and comparing every query result and periodic full dumps.",
     design_ref="DESIGN.md §5 C11",
